@@ -362,6 +362,8 @@ func runC13(ctx *Ctx) error {
 				inputs = append(inputs, mk("mux", n, l))
 			}
 		}
+		// a multiplexer that never gets a pipeline (an empty request stream): it must still close its output
+		inputs = append(inputs, mk("mux", 0, 0))
 		for _, k := range []int{1, 2, 5, 50} {
 			for _, l := range []int{0, 1, k - 1, k, k + 1, 3*k + 1, 120} {
 				if l >= 0 {
